@@ -159,7 +159,7 @@ var parseLoopDeltas = []cloneDelta{
 		"the position-tracking variant reports the location of the current token instead of an empty one"},
 	{"pkg/sql/parser", "Parser", "ParseContext",
 		[]string{"call errors.IncompleteStatementError(nil,\"\")"},
-		[]string{"call (*parser.Parser).currentLocation()", "call errors.IncompleteStatementError(_,\"\")", "call fmt.Errorf(\"parsing cancelled: %w\",_)", "call invoke Err()", "store Parser.ctx"},
+		[]string{"call (*parser.Parser).currentLocation()", "call errors.IncompleteStatementError(_,\"\")", "call fmt.Errorf(\"parsing cancelled: %w\",_)", "call invoke Err()", "call (*parser.Parser).checkContext()", "store Parser.ctx"},
 		"context polls, the stored context and its deferred reset"},
 	{"pkg/sql/parser", "Parser", "parseWithRecovery",
 		[]string{"call (*parser.Parser).checkStrictEmpty()", "call (*parser.Parser).checkStrictEmptySemicolon()", "call errors.InvalidSyntaxError(\"empty statement not allowed in strict mode\"*", "call ast.NewAST()", "call ast.ReleaseAST(_)", "call errors.IncompleteStatementError(nil,\"\")"},
